@@ -158,9 +158,15 @@ def parse_message(
 
     # For backward compatibility, try to parse with JSONRPCMessage first
     try:
-        return JSONRPCMessage.model_validate(data)  # type: ignore[attr-defined]
+        message = JSONRPCMessage.model_validate(data)  # type: ignore[attr-defined]
     except Exception:
         pass
+    else:
+        # An object that is neither a request, a notification nor a response
+        # (no method, no id, no error) is not a JSON-RPC message at all
+        if message.method is None and message.id is None and message.error is None:
+            raise ValueError("Invalid JSON-RPC message structure")
+        return message
 
     # Check required fields
     if data.get("jsonrpc") != "2.0":
